@@ -66,7 +66,7 @@ def one(cand: Path) -> dict:
         # 5. checks
         caught = []
         errors = []
-        rc, out = sh([str(V / "check"), "ALL", "--root", str(wt)], cwd=str(V), env=dict(os.environ, VERIF_NO_EVIDENCE="1"), timeout=900)
+        rc, out = sh([str(V / "check"), "ALL", "--root", str(wt)], cwd=str(V), env=dict(os.environ, VERIF_NO_EVIDENCE="1", VERIF_SCRATCH_DIR=str(wt)), timeout=900)
         cur: list[str] = []
         for line in out.splitlines():
             if line.startswith("  R") or "ANALYSIS-ERROR" in line:
